@@ -47,7 +47,13 @@ def conv_class(annotation):
         return {int: "int", float: "float", str: "str"}.get(annotation, "unknown")
     if not isinstance(annotation, str):
         from asyncio_taskpool.internals import types as T
-        from typing import Iterable
+        from typing import Iterable, Union, get_args, get_origin
+        import types as _types
+        if get_origin(annotation) in (Union, getattr(_types, "UnionType", Union)):
+            rest = [a for a in get_args(annotation) if a is not type(None)]
+            if len(rest) == 1:            # Optional[X] / X | None: like X
+                return conv_class(rest[0])
+            return "unknown"
         if any(annotation is t for t in (T.AnyCoroutineFunc, T.EndCB, T.CancelCB)):
             return "path"
         if any(annotation is t for t in (T.ArgsT, T.KwArgsT)) or \
